@@ -33,6 +33,19 @@ func l2Base(idx int, ctx *core.Ctx) *core.Scenario {
 		}
 		sc = work.FromCorpus(r, files[r.Intn(len(files))], "C14", ctx.Seed, idx)
 		sc.Kind = "l2:" + sc.Kind
+	case 3:
+		// programs that wait for input nobody types: the Stop click lands while Read polls
+		progs := []string{
+			"print \"name?\"\ns := read\nprint \"hello\" s\n",
+			"n := 0\nwhile true\n    l := read\n    n = n + (len l)\n    print n\nend\n",
+			"on key k:string\n    print \"key\" k\n    l := read\n    print \"line\" l\nend\n",
+			"func ask:string\n    print \"?\"\n    return read\nend\nprint (ask) (ask)\n",
+		}
+		sc = &core.Scenario{Property: "C14", Seed: ctx.Seed, Index: idx, Kind: "l2:blocked-read", Program: progs[r.Intn(len(progs))], RandSeed: 1, ReplayExact: true}
+		sc.Events = []core.Event{{Name: "key", Str: []string{"a"}, AtNs: 3_000_000}}
+		if r.Chance(0.5) {
+			sc.Inputs = []string{"one"}
+		}
 	case 2:
 		ps := work.Probes(2000)
 		p := ps[r.Intn(len(ps))]
